@@ -118,6 +118,7 @@ class ProcRun:
         self.file_before = None
         self.file_after = None
         self.extra = {}
+        self.stage = None
 
 
 class OfxgetWorld:
@@ -355,9 +356,13 @@ class OfxgetWorld:
         err = io.StringIO()
         try:
             with contextlib.redirect_stdout(out), contextlib.redirect_stderr(err):
+                run.stage = "load"
                 importlib.reload(ofxget)
+                run.stage = "argv"
                 ns = ofxget.make_argparser().parse_args(run.argv)
+                run.stage = "merge"
                 args = ofxget.merge_config(ns, ofxget.USERCFG)
+                run.stage = "handler"
                 run.effective = {k: args[k] for k in PERSISTABLE if k in args}
                 run.extra = {k: args[k] for k in ("dtstart", "dtend", "dtasof", "inctran", "incbal", "incpos", "incoo",
                                                   "all", "dryrun", "write") if k in args}
@@ -409,6 +414,13 @@ class OfxgetWorld:
             self.violate("C18", "L4-dryrun", "file-changed", f"run{run.n}: a --dryrun run changed ofxget.cfg")
         if not run.write and run.file_after != run.file_before:
             self.violate("C18", "L4-nowrite", "file-changed", f"run{run.n}: a run without --write changed ofxget.cfg")
+        # L1 (precondition): the settings can be put together at all.  Reading the command line and the files may
+        # fail only because no URL is set anywhere
+        if run.ok is False and run.stage in ("load", "argv", "merge"):
+            if not (run.stage == "merge" and null(expect["url"]) and "Missing URL" in (run.exc or "")):
+                self.violate("C18", "L1-precedence", "settings-unusable",
+                             f"run{run.n}: no effective settings at all - {run.stage} stage fails with {run.exc} "
+                             f"(a URL is set by: {src['url']})", stage=run.stage)
         # L1: effective values
         if run.effective is not None:
             for opt in PERSISTABLE:
